@@ -19,3 +19,4 @@ def run(ck):
     sampling.r9_signed_projective_division(ck, P)
     sampling.r10_transform_flags(ck, P)
     sampling.r11_rounding_epsilon(ck, P)
+    sampling.r13_weight_vector_tracks_position(ck, P)
